@@ -553,7 +553,7 @@ def loop (M : Machine) (obj : HostVal) (code : Bytes) (fuel : Nat) (ip : Nat) (s
               let st := { st with env := st.env.set name nv }
               match stack with
               | _ :: rest => loop M obj code fuel next rest st
-              | _ => fail "underflow"
+              | _ => (err "underflow", st)   -- the variable has already been updated
       | _ => fail "unknownOpcode"
 
 /-- `vm.Run(obj)` at top level: clear the stack, run the main program, restore -/
